@@ -499,6 +499,65 @@ func c15Cow(p *Prog, r *Report, prefix string) {
 		}
 		r.check(len(rb) == 0, rule, "remove-matching-host", p.Pos(onEvent.Pos()), "", strings.Join(dedupe(rb), " || "))
 	}
+	// Add: a host that is announced although it is already listed must not get a second entry
+	// (every plan would yield it twice, and a later Remove would drop only one of the two)
+	{
+		var ab []string
+		inAddArm := func(b *ssa.BasicBlock) bool {
+			for _, ct := range dominatingConds(b) {
+				if ex, ok := ct.Cond.(*ssa.Extract); ok && ct.Truth {
+					if ta, ok := ex.Tuple.(*ssa.TypeAssert); ok && typeIs(ta.AssertedType, "proxycore", "AddEvent") {
+						return true
+					}
+				}
+			}
+			return false
+		}
+		compares, publishes := false, false
+		for _, b := range onEvent.Blocks {
+			if !inAddArm(b) {
+				continue
+			}
+			for _, in := range b.Instrs {
+				switch x := in.(type) {
+				case *ssa.BinOp:
+					if x.Op != token.EQL && x.Op != token.NEQ {
+						continue
+					}
+					xc, xok := x.X.(*ssa.Call)
+					yc, yok := x.Y.(*ssa.Call)
+					if xok && yok && xc.Call.StaticCallee() != nil && yc.Call.StaticCallee() != nil && xc.Call.StaticCallee().Name() == "Key" && yc.Call.StaticCallee().Name() == "Key" {
+						compares = true
+					}
+				case *ssa.Call:
+					if callIsMethod(x, "sync/atomic", "Value", "Store") {
+						publishes = true
+					}
+					// a helper doing the membership test
+					if callee := x.Call.StaticCallee(); callee != nil && p.InRepo(callee) {
+						for _, f := range withCallees(p, callee, 1) {
+							eachInstr(f, func(in2 ssa.Instruction) {
+								if bo, ok := in2.(*ssa.BinOp); ok && (bo.Op == token.EQL || bo.Op == token.NEQ) {
+									xc, xok := bo.X.(*ssa.Call)
+									yc, yok := bo.Y.(*ssa.Call)
+									if xok && yok && xc.Call.StaticCallee() != nil && yc.Call.StaticCallee() != nil && xc.Call.StaticCallee().Name() == "Key" && yc.Call.StaticCallee().Name() == "Key" {
+										compares = true
+									}
+								}
+							})
+						}
+					}
+				}
+			}
+		}
+		if !publishes {
+			ab = append(ab, "the Add arm publishes no host list")
+		}
+		if !compares {
+			ab = append(ab, "the Add arm appends the announced host without comparing its key with the hosts already listed: a host announced twice gets two entries, every query plan yields it twice and a later Remove leaves one of them behind")
+		}
+		r.check(len(ab) == 0, rule, "add-if-absent", p.Pos(onEvent.Pos()), "", strings.Join(ab, " || "))
+	}
 
 	// atomics discipline
 	var ab []string
